@@ -8,7 +8,7 @@ from collections import ChainMap
 from sa.astx import NotConst, call_name, const_eval, src, statements
 from sa.selftest import Mutant, Silent
 from sa.source import AnalysisError, class_assigns, methods, mro_lookup
-from sa.props._lib_h import MiniInterp, ModelError, self_attr
+from sa.props._lib_h import MiniInterp, ModelError, edge_path, self_attr
 
 PROPERTY = "C38"
 TELNET = "conch/telnet.py"
@@ -19,7 +19,8 @@ EXPLANATION = (
     "delegation, helper functions, conditionals and named temporaries, by a whitelisted interpreter - no twisted code is run) on every single "
     "byte, byte pairs, the empty string and strings with 0xFF / LF at the first, middle and last position; what reaches transport.write must "
     "equal the ideal escaper (IAC doubled, LF -> CR LF, everything else untouched); writeSequence must put the same bytes on the wire as write() "
-    "of the concatenation (F38); sub-negotiations must be IAC SB about <IAC-doubled payload> IAC SE. Reader: the per-byte state machine of "
+    "of the concatenation (F38) for lists, tuples, one-shot iterators and generators, and may iterate its parameter only once unless it "
+    "materialised it first; sub-negotiations must be IAC SB about <IAC-doubled payload> IAC SE. Reader: the per-byte state machine of "
     "Telnet.dataReceived is evaluated on an exhaustive finite corpus of CR-free application strings rich in IAC/LF/command bytes, interleaved "
     "commands and sub-negotiations, under whole / byte-wise / every two-way segmentation, against an RFC 854 reference decoder: delivered bytes, "
     "command events, their order and the final state must agree (an UnboundLocalError / AttributeError of the modelled code is a failed run), the "
@@ -412,15 +413,66 @@ def check(ctx):
         qs = M + f"TelnetTransport.writeSequence (resolved: {owner.name}.writeSequence)"
         seqs = [[b"a\xffb\n"], [IACB, LFB], [], [b"", b"x"], [b"ab", b"cd"], [IACB], [b"a", IACB + IACB, LFB + b"z"]]
         bad = None
+        forms = (("list", list), ("tuple", tuple), ("one-shot iterator", lambda x: iter(list(x))), ("generator", lambda x: (e for e in list(x))))
+        n_ws = 0
         for sq in seqs:
-            sinks = []
-            eval_method(mod, tt, tt, "writeSequence", [list(sq)], C, sinks, set())
-            got = b"".join(sinks)
-            if got != ideal(b"".join(sq)) and bad is None:
-                bad = (sq, got)
+            for fname_, mk in forms:
+                sinks = []
+                n_ws += 1
+                try:
+                    eval_method(mod, tt, tt, "writeSequence", [mk(sq)], C, sinks, set())
+                    got = b"".join(sinks)
+                except ModelError as e:
+                    got = f"<raises {e}>".encode()
+                if got != ideal(b"".join(sq)) and bad is None:
+                    bad = (sq, got, fname_)
         ctx.check(bad is None, "writeSequence/same-escaping-as-write", qs,
-                  f"writeSequence({bad[0] if bad else []!r}) puts {bad[1] if bad else b''!r} on the wire; write() of the concatenation would send "
-                  f"{ideal(b''.join(bad[0])) if bad else b''!r} (IAC doubled, LF -> CR LF): the sequence bypasses the escaping or gains/loses bytes")
+                  f"writeSequence({bad[0] if bad else []!r}) given as a {bad[2] if bad else ''} puts {bad[1] if bad else b''!r} on the wire; write() of the concatenation would send "
+                  f"{ideal(b''.join(bad[0])) if bad else b''!r} (IAC doubled, LF -> CR LF): the sequence bypasses the escaping or gains/loses bytes",
+                  detail=f"{n_ws} evaluations over lists, tuples, one-shot iterators and generators")
+        # structurally: the iterable parameter is consumed at most once on any path unless it was materialised first
+        wsf = r[1]
+        g = ctx.cfg(wsf)
+        sp_ = wsf.args.args[1].arg
+
+        def uses_param(x):
+            return isinstance(x, ast.Name) and x.id == sp_ and isinstance(x.ctx, ast.Load)
+
+        def consumes(node):
+            """AST sub-nodes of a CFG node that iterate the raw parameter"""
+            out = []
+            roots = [node.ast.iter] if node.kind == "for" else [node.ast]
+            if node.kind == "for" and uses_param(node.ast.iter):
+                out.append("for")
+            for r_ in roots:
+                for x in ast.walk(r_):
+                    if isinstance(x, (ast.ListComp, ast.GeneratorExp, ast.SetComp, ast.DictComp)) and any(uses_param(gc.iter) for gc in x.generators):
+                        out.append("comprehension")
+                    if isinstance(x, ast.Call) and any(uses_param(a) for a in x.args) and call_name(x) not in ("len", "isinstance", "type", "bool", "id"):
+                        out.append(src(x.func)[:30] + "()")
+                    if isinstance(x, ast.Starred) and uses_param(x.value):
+                        out.append("*unpack")
+            return out
+        sites = [n.id for n in g.nodes if n.ast is not None and n.kind in ("stmt", "test", "for", "with") and g.reachable(n.id) and consumes(n)]
+        mat = [n for n in sites if g.node(n).kind == "stmt" and isinstance(g.node(n).ast, ast.Assign)
+               and any(isinstance(t, ast.Name) and t.id == sp_ for t in g.node(n).ast.targets)
+               and isinstance(g.node(n).ast.value, ast.Call) and call_name(g.node(n).ast.value) in ("list", "tuple") and len(consumes(g.node(n))) == 1]
+        ctx.need(sites, "writeSequence: the sequence parameter is used")
+        twice = None
+        # only sites that can see the raw parameter count: after `seq = list(seq)` the name denotes a re-iterable list
+        raw = [n for n in sites if edge_path(g, [g.entry], [n], avoid_nodes=[m for m in mat if m != n]) is not None]
+        for a_ in raw:
+            if a_ in mat:
+                continue        # from here on the name denotes a list / tuple
+            if len(consumes(g.node(a_))) > 1:
+                twice = twice or (a_, a_)
+            targets = [x for x in raw if not (x == a_ and g.node(a_).kind == "for")]     # re-entering a for head is the same iteration
+            w = edge_path(g, [a_], targets, avoid_nodes=[m for m in mat if m not in targets], strict=True)
+            if w is not None:
+                twice = twice or (a_, w[-1])
+        ctx.check(twice is None, "writeSequence/iterable-consumed-once", M + f"TelnetTransport.writeSequence (resolved: {owner.name}.writeSequence) | <iterable parameter>",
+                  f"the iterable passed to writeSequence is iterated twice ({g.node(twice[0]).text() if twice else ''} ... then {g.node(twice[1]).text() if twice else ''}): a generator / "
+                  "one-shot iterator is exhausted by the first pass, so elements are silently dropped")
     with ctx.section('writer/requestNegotiation'):
         qn = M + "Telnet.requestNegotiation"
         ctx.func(TELNET, "Telnet.requestNegotiation")
@@ -635,6 +687,9 @@ def find_divergence(rd, C, wire, chunks):
 
 T = TELNET
 MUTANTS = [
+    Mutant("writeSequence-measures-then-joins", T, "    def writeSequence(self, seq):\n        self.write(b\"\".join(seq))\n\n\nclass TelnetBootstrapProtocol",
+           "    def writeSequence(self, seq):\n        if sum(len(piece) for piece in seq):\n            self.write(b\"\".join(seq))\n\n\nclass TelnetBootstrapProtocol",
+           expect_rule="writeSequence/"),
     Mutant("iac-escape-skipped-when-first-byte", T, "        ProtocolTransportMixin.write(self, data.replace(b\"\\xff\", b\"\\xff\\xff\"))",
            "        if IAC in data[1:]:\n            data = data.replace(IAC, IAC * 2)\n        ProtocolTransportMixin.write(self, data)", expect_rule="writer/iac-doubled"),
     Mutant("lf-translation-only-for-multibyte-writes", T, "        self.transport.write(data.replace(b\"\\n\", b\"\\r\\n\"))",
@@ -675,6 +730,8 @@ MUTANTS = [
            "            elif self.state == \"command\":\n                command = self.command\n", expect_rule="reader/round-trip"),
 ]
 SILENT = [
+    Silent("writeSequence-materialise-then-fast-path", T, "    def writeSequence(self, seq):\n        self.write(b\"\".join(seq))\n\n\nclass TelnetBootstrapProtocol",
+           "    def writeSequence(self, seq):\n        seq = list(seq)\n        if any(IAC in piece or b\"\\n\" in piece for piece in seq):\n            self.write(b\"\".join(seq))\n        else:\n            self.transport.writeSequence(seq)\n\n\nclass TelnetBootstrapProtocol"),
     Silent("iac-escape-only-when-present", T, "        ProtocolTransportMixin.write(self, data.replace(b\"\\xff\", b\"\\xff\\xff\"))",
            "        if data.find(IAC) >= 0:\n            data = data.replace(IAC, IAC * 2)\n        ProtocolTransportMixin.write(self, data)"),
     Silent("write-named-temporary-and-helper", T, "        ProtocolTransportMixin.write(self, data.replace(b\"\\xff\", b\"\\xff\\xff\"))",
